@@ -12,6 +12,7 @@ entry.  Request of every op: {"op", "program": <export_ast.export_program>, "pac
  inv_op    -> {"r": [[tag, name|null]…]}          declaration inventory computed from the IR alone
  visit_op  -> {"r": {"texts": […], "state": {…}}} top-level declarations visited from a hand-set state
  state_op  -> {"r": {attr: value}}                attributes after history + program
+ issam_op  -> {"r": [[class name, bool]…]}        (optional) the model's `tu.is_sam` on every top-level class
 `state_attrs`: attribute names of the real translator object compared with the model's state
 (`_nodes_stack` is compared by length only: frames are summaries)."""
 
@@ -24,6 +25,7 @@ MODELS = {
         "inv_op": "trans.kotlin.inventory",
         "visit_op": "trans.kotlin.visit",
         "state_op": "trans.kotlin.state",
+        "issam_op": "trans.kotlin.issam",
         "state_attrs": ["ident", "is_unit", "is_lambda", "_cast_integers"],
         "model": "lean/Heph/Model/TransKotlin.lean",
         "decl_tags": ["class", "tparam", "field", "func", "param", "var", "super", "varannot", "retannot",
